@@ -1,6 +1,130 @@
-import BR.Model.Lru
+import BR.Lemmas.LruOrder
+/-!
+# C05 — eviction is least-recently-used first and only under space pressure
+
+Model M1.  The recency list is kept least-recently-used first, so "the `n` least recently used
+entries" is `order.take n` and "the survivors" is `order.drop n`.
+-/
 namespace BR.Props.C05
-open BR.Lru
-theorem placeholder : roundUp4k 1 = 4096 := by decide
-#print axioms placeholder
+open BR.Lru BR.ListAux
+
+/-- **Add (index insertion of a completed upload / fetch)**: when `Add` accepts the item, the
+entries that leave the index are exactly the `n` least recently used ones of the recency list (in
+which the written key has just become the most recent), queued oldest first after the overwritten
+version of the same key; `n` is minimal (evicting only `j < n` would not fit) and `n = 0` when the
+item fits without eviction. -/
+theorem add_evicts_lru_minimal (l : Lru) (k : String) (v : Item) (hok : (add l k v).2 = .ok) :
+    ∃ n, (add l k v).1.order = (addOrder l k v).drop n ∧
+      (add l k v).1.queue = l.queue ++ addOldQ l k ++ qOf ((addOrder l k v).take n) ∧
+      (∀ j, j < n → l.cur - sumDisk ((addOrder l k v).take j) + addDelta l k v > l.maxSize) ∧
+      (l.cur + addDelta l k v ≤ l.maxSize → n = 0) := by
+  obtain ⟨n, _, h1, h2, h3, _, _, _⟩ := add_ok_spec l k v hok
+  refine ⟨n, h1, h2, h3, ?_⟩
+  intro hfit
+  cases n with
+  | zero => rfl
+  | succ n =>
+    have := h3 0 (by omega)
+    simp at this
+    omega
+
+/-- **Reserve (space for an incoming upload / backend fetch)**: same statement for the reservation
+of `size` bytes: exactly the `n` least recently used entries are evicted, `n` minimal, none when the
+size fits. -/
+theorem reserve_evicts_lru_minimal {l : Lru} (h : Inv l) (size : Int) (hpos : 0 < size)
+    (hok : (reserve l size).2 = none) :
+    ∃ n, (reserve l size).1.order = l.order.drop n ∧
+      (reserve l size).1.queue = l.queue ++ qOf (l.order.take n) ∧
+      (∀ j, j < n → size + (l.cur - sumDisk (l.order.take j)) > l.maxSize) ∧
+      (size + l.cur ≤ l.maxSize → n = 0) := by
+  obtain ⟨n, _, h1, h2, _, h3, _⟩ := reserve_ok_spec h size hpos hok
+  refine ⟨n, h1, h2, h3, ?_⟩
+  intro hfit
+  cases n with
+  | zero => rfl
+  | succ n =>
+    have := h3 0 (by omega)
+    simp at this
+    omega
+
+/-- **a lookup that hits is a use**: `Get` (used by GET, HEAD/Contains, FindMissingBlobs and the
+ActionResult dependency check) moves the entry to the most-recent end and keeps the relative order
+of all other entries; nothing is evicted, no counter changes. -/
+theorem get_hit_moves_to_front (l : Lru) (k : String) (e : Elem) (hf : find? l k = some e) :
+    (get l k).2 = some e ∧
+    (get l k).1.order = l.order.filter (fun x => !(x.key == k)) ++ [e] ∧
+    (get l k).1.cur = l.cur ∧ (get l k).1.queue = l.queue := by
+  unfold Lru.get; rw [hf]; simp
+
+theorem get_miss_unchanged (l : Lru) (k : String) (hf : find? l k = none) : get l k = (l, none) := by
+  unfold Lru.get; rw [hf]
+
+/-- **rejected without evicting anything**: an item whose rounded on-disk size exceeds `maxSize`
+is refused by `Add`, a reservation larger than `maxSize` is refused by `Reserve` (400), and every
+refusal leaves the whole state (index, counters, queue) unchanged. -/
+theorem oversize_rejected_unchanged (l : Lru) (k : String) (v : Item) (size : Int) :
+    (roundUp4k v.sizeOnDisk > l.maxSize → add l k v = (l, .refused)) ∧
+    (size > l.maxSize → 0 < size → reserve l size = (l, some .badRequest)) := by
+  constructor
+  · intro h; unfold add; simp [h]
+  · intro h hp; unfold reserve
+    have hz : (size == 0) = false := by simp; omega
+    have hneg : ¬ size < 0 := by omega
+    simp [hz, hneg, h]
+
+theorem refusal_changes_nothing {l : Lru} (h : Inv l) (k : String) (v : Item) (size : Int) :
+    ((add l k v).2 = .refused → (add l k v).1 = l) ∧
+    (∀ e, (reserve l size).2 = some e → (reserve l size).1 = l) :=
+  ⟨add_refused_unchanged l k v, fun e he => reserve_err_unchanged h size e he⟩
+
+/-- **an accepted upload that fits is present immediately afterwards**: if `Add` accepts the item
+and the item fits next to the bytes reserved for other requests in flight
+(`res + roundUp4k sizeOnDisk ≤ maxSize`; in a sequential history `res = 0` and this is implied by
+acceptance), the key is in the index, at the most-recent end, with the new value. -/
+theorem add_present_when_fits {l : Lru} (h : Inv l) (k : String) (v : Item)
+    (hok : (add l k v).2 = .ok) (hfit : l.res + roundUp4k v.sizeOnDisk ≤ l.maxSize) :
+    ∃ e, (add l k v).1.order.getLast? = some e ∧ e.key = k ∧ e.val = v := by
+  obtain ⟨n, hn, h1, _, h3, _, _, _⟩ := add_ok_spec l k v hok
+  -- the list ends with the new element; show n < length
+  have hshape : ∃ front e, addOrder l k v = front ++ [e] ∧ e.key = k ∧ e.val = v ∧
+      l.cur - sumDisk front + addDelta l k v = l.res + roundUp4k v.sizeOnDisk := by
+    unfold addOrder addDelta
+    cases hf : find? l k with
+    | some ee =>
+      obtain ⟨hp, _, hk⟩ := perm_of_find h.toWf hf
+      have hsd := sumDisk_perm hp
+      simp only [sumDisk_cons, Elem.rdisk] at hsd
+      refine ⟨_, _, rfl, hk, rfl, ?_⟩
+      have := h.cur_eq
+      simp only; omega
+    | none =>
+      refine ⟨_, _, rfl, rfl, rfl, ?_⟩
+      have := h.cur_eq
+      simp only; omega
+  obtain ⟨front, e, hsh, hk, hv, hsum⟩ := hshape
+  have hlen : (addOrder l k v).length = front.length + 1 := by rw [hsh]; simp
+  have hnlt : n ≤ front.length := by
+    by_cases hc : n ≤ front.length
+    · exact hc
+    · exfalso
+      have := h3 front.length (by omega)
+      rw [hsh, List.take_left' rfl] at this
+      omega
+  refine ⟨e, ?_, hk, hv⟩
+  rw [h1, hsh, List.drop_append_of_le_length hnlt]
+  simp
+
+/-! non-vacuity -/
+example : (add (run (init 12288 0) [.add "cas/a" ⟨1, 4000, "r", false⟩, .add "cas/b" ⟨1, 4000, "r", false⟩,
+      .add "cas/c" ⟨1, 4000, "r", false⟩, .get "cas/a"]) "cas/d" ⟨1, 8000, "r", false⟩).2 = .ok ∧
+    ((add (run (init 12288 0) [.add "cas/a" ⟨1, 4000, "r", false⟩, .add "cas/b" ⟨1, 4000, "r", false⟩,
+      .add "cas/c" ⟨1, 4000, "r", false⟩, .get "cas/a"]) "cas/d" ⟨1, 8000, "r", false⟩).1.order.map Elem.key)
+      = ["cas/a", "cas/d"] := by decide
+
+#print axioms add_evicts_lru_minimal
+#print axioms reserve_evicts_lru_minimal
+#print axioms get_hit_moves_to_front
+#print axioms oversize_rejected_unchanged
+#print axioms refusal_changes_nothing
+#print axioms add_present_when_fits
 end BR.Props.C05
